@@ -78,6 +78,7 @@ def observe(case):
     with M.quiet():
         dm = G.mkdm(case["dm"])
         dec = M.build(case["spec"])
+        M.warmup(dec, dm, case["dm"], case["spec"])
         try:
             res = dec.evaluate(dm)
         except Exception as e:
